@@ -15,7 +15,11 @@ RULE = ("one evaluation = one Execute of a real FunctionJob / ShellJob / CurlJob
         "(cancelled / past its deadline, before the call / during the run, channel-synchronised; nil and own errors, fresh job and second execution): the outcome "
         "is what the function returned, a simple command that ignores SIGINT (`trap '' INT; exec sleep 4`, context cancelled / timed out once the trap is "
         "installed) is gone within 2 s, cancellation aborts a sleeping function / `sleep 5` / a hanging HTTP handler within 2 s, and goroutines / descriptors / "
-        "child processes / open bodies after 100 vs 300 sequential + 8x40 concurrent executions differ by at most a small constant. "
+        "child processes / open bodies after 100 vs 300 sequential + 8x40 concurrent executions differ by at most a small constant; a CurlJob whose custom "
+        "HTTPHandler PANICS on its k-th call (k = 1, 2, 3 and a seeded one; three answer scripts; with and without callback; the panic recovered as the scheduler "
+        "does): JobStatus() / DumpResponse() answer within 8 s, the next three executions run, call the handler and are reported faithfully (status, stored "
+        "response, returned error, one callback each), at most one body open; the same with 4 goroutines x 12 executions of one job and through a real "
+        "scheduler (5 ms trigger, panic at the second fire time: at least 8 handler calls within 8 s, no goroutine growth). "
         "non-trivial = every evaluation executes real code; distinct by protocol line")
 
 TRUSTED = [
@@ -77,10 +81,12 @@ def run(ctx):
             "accessors = fields of the execution whose critical section ran last, never a mixture, in every interleaving (C16_last_execution*, C16_serialised)",
             "callbacks = completed executions, once each (C16_callback_once)",
             "CurlJob: at most one response body open at every reachable state, closes + open = bodies handed out (C16_open_bodies_le_one*)",
+            "CurlJob (translated code): a panicking HTTPHandler.Do / Body.Close leaves Execute with the mutex RELEASED — the last recorded event is the "
+            "deferred unlock (trans_curl_do_panic_releases_lock, trans_curl_close_panic_releases_lock)",
             "negative controls: without Body.Close() before Do the open bodies equal the number of responses (C16_leak_without_close, C16_leak_unbounded); "
             "without the mutex two executions can leave mixed fields (C16_fields_mix_without_lock)"],
         "tie (regenerated facts, C16_facts_*)": "operators and constants of the three status tests, Close before Do under the lock and guarded by nil tests only, "
-                                                  "all stored fields assigned between one Lock and one Unlock, `return err`, one callback call site outside any loop after Unlock, "
+                                                  "all stored fields assigned between one Lock and one Unlock (CurlJob: in the helper `do`, run by `err := cu.do(ctx)`, below `cu.mtx.Lock(); defer cu.mtx.Unlock()`), `return err`, one callback call site outside any loop after Unlock, "
                                                   "accessors read under the mutex, exec.CommandContext(ctx) / Request.WithContext(ctx)",
         "observed only (harness)": ["os/exec and net/http contracts", "context cancellation aborts within 2 s", "no growth of goroutines, descriptors, child processes"],
     }
